@@ -92,6 +92,9 @@ func runWriter(c *core.Ctx, kind string, workers int, yield bool) {
 	if (kind == "json" || kind == "csv") && c.Rng.Intn(3) == 0 {
 		closeFile = false
 	}
+	csvAuto := kind == "csv" && c.Idx%3 == 1
+	wrx.CSVAuto = csvAuto
+	defer func() { wrx.CSVAuto = false }()
 	if yield {
 		obiverif.SetYield(uint64(c.Seed)*7919+uint64(c.Idx), 400, 300)
 		defer obiverif.SetYield(0, 0, 0)
@@ -182,6 +185,10 @@ func runWriter(c *core.Ctx, kind string, workers int, yield bool) {
 			drainClass = "out-of-order-arrival"
 		}
 		cls := drainClass + ":" + ec
+		if csvAuto {
+			cls += ":auto-columns"
+			det["csv_auto_columns"] = true
+		}
 		switch kind {
 		case "fasta", "fastq":
 			if !bytes.Equal(out, want) {
@@ -227,7 +234,7 @@ func runWriter(c *core.Ctx, kind string, workers int, yield bool) {
 				c.Violate("csv-invalid:"+cls, "the CSV output does not parse / has no header", det)
 				continue
 			}
-			if strings.Join(rows[0], ",") != "id,k,sequence" {
+			if h := strings.Join(rows[0], ","); (!csvAuto && h != "id,k,sequence") || (csvAuto && !strings.HasPrefix(h, "id")) {
 				det["got"] = clip(out)
 				c.Violate("csv-header:"+cls, "the first CSV line is not the header", det)
 				continue
@@ -263,12 +270,13 @@ func init() {
 		subs = append(subs, core.Sub{Name: kind + "-workers", N: core.Const(42, 840), Race: true, NRace: core.Const(14, 140),
 			Run: func(c *core.Ctx) { runWriter(c, kind, []int{2, 3, 8}[c.Idx%3], true) }})
 	}
+	subs = append(subs, core.Sub{Name: "tofile", N: core.Const(50, 500), Run: runToFile})
 	core.Register(&core.Property{
 		ID:    "C04",
 		Level: "exploration",
 		Rule: "each history = one real writer (WriteFasta/WriteFastq/WriteJSON/WriteCSV over CompressStream) handed a recording sink and an iterator fed with a partition of records into 0..6 batches (all permutations up to 4 (quick) / 5 (thorough) batches, random up to 27), subsets of empty batches, plain or gzip, closing or not; with ONE formatting worker the arrival order at the writer goroutine is the fed permutation (confirmed per run by the writer.arrival events), with 2-8 workers + yields the scheduler makes the order. " +
 			"distinct_nontrivial = distinct (writer, partition, arrival order observed at the writer, compression, close mode) with an out-of-order arrival or an empty batch",
-		Assume: []string{"encoding/json and encoding/csv decide well-formedness", "FormatFastaBatch/FormatFastqBatch of one batch is the reference rendering of that batch (C02 checks the rendering itself)"},
+		Assume:        []string{"encoding/json and encoding/csv decide well-formedness", "FormatFastaBatch/FormatFastqBatch of one batch is the reference rendering of that batch (C02 checks the rendering itself)"},
 		Subs:          subs,
 		MinNontrivial: 300,
 		RaceFiles:     []string{"pkg/obiformats/seqfile_chunk_write.go", "pkg/obiformats/fastseq_write_", "pkg/obiformats/json_writer.go", "pkg/obiformats/csv_writer.go", "pkg/obiformats/universal_write.go", "pkg/obiutils/gzipfile.go"},
